@@ -16,10 +16,10 @@
 #ifndef TSET
 #define TSET 0
 #endif
-#ifdef MB	/* characters of every encoded length and with every kind of lead byte: U+00E9 (c3), U+0628 (d8), U+4E2D (e4), U+1F600 (f0) */
+#ifdef MB	/* characters of every encoded length and with every kind of lead byte: U+00E9 (c3), U+0628 (d8), U+0434 (d0), U+4E2D (e4), U+1F600 (f0) */
 #define PHCLS (SL_ASCII | SL_2B | SL_AR1 | SL_3B)
 #define PHSET "a"
-#define LNCLS (SL_ASCII | SL_2B | SL_AR1 | SL_3B | SL_4B)
+#define LNCLS (SL_ASCII | SL_2B | SL_AR1 | SL_3B | SL_4B | SL_CYR)
 #define LNSET "a1"
 #elif defined(WIDE)
 #define PHCLS (SL_ASCII | SL_2B | SL_2BU)
